@@ -654,6 +654,13 @@ def check_replay_loop(ctx, prog, R, rb, good_app, fk):
             ctx.check(ok, "C02.c", "%s:replays-element-own-fields" % ck, R.loc(b),
                       "replay passes the element's own command/setup/cleanup", "replay calls the runner with fields that are not the element's own")
         w = lib.path_between_avoiding(R, [lib.call_target(R, idx[0][0])], [drop_b], rc)
+        if w is not None:
+            # the element may be taken out of the (local, detached) queue *before* it runs, as long as the same iteration
+            # runs it afterwards: a violation needs an iteration that drops and reaches the header again with no run
+            region_wo_run = set(lbody) - set(rc)
+            if drop_b in region_wo_run and not path_within(R, region_wo_run, drop_b, h, None) \
+                    and not any(s_ not in lbody for x in _reach_within(R, region_wo_run, drop_b, h) for s_ in R.succ[x]):
+                w = None
         ctx.check(w is None, "C02.c", "%s:drop-only-after-run" % ck, R.loc(drop_b),
                   "element is removed from the queue only after it ran", "replay loop removes a postponed command without running it")
         ctx.check(not runs_before_keep, "C02.c", "%s:keep-only-if-not-run" % ck, R.loc(keep_b[0]) if keep_b else R.loc(h),
@@ -716,6 +723,18 @@ def path_within(R, region, a, b, header, strict=False):
             return True
         st.extend(s_ for s_ in R.succ[x] if s_ in region and s_ != header)
     return (a == b) and not strict
+
+
+def _reach_within(R, region, a, header):
+    seen = {a}
+    st = [a]
+    while st:
+        x = st.pop()
+        for s_ in R.succ[x]:
+            if s_ in region and s_ != header and s_ not in seen:
+                seen.add(s_)
+                st.append(s_)
+    return seen
 
 
 def check_error_neutral(ctx, prog):
